@@ -600,6 +600,14 @@ func (fv *FuncVC) run(fr *Frame, args []Val, freeVars []Val, st *State, guard st
 	}
 	fr.guard = guard
 	fr.entrySt = st.Clone()
+	if len(fv.v.typeinvs) > 0 {
+		for _, p := range fn.Params {
+			fv.assumeTypeInv(fr, p, fr.vals[p], st, guard)
+		}
+		for _, f := range fn.FreeVars {
+			fv.assumeTypeInv(fr, f, fr.vals[f], st, guard)
+		}
+	}
 	order := rpo(fn)
 	for _, b := range order {
 		var reach string
@@ -916,6 +924,7 @@ func (fv *FuncVC) execBlock(fr *Frame, b *ssa.BasicBlock, st *State, reach strin
 			}
 			if fr.top {
 				fv.checkPost(fr, b, st, reach, vals, fv.pos(x.Pos()))
+				fv.checkTypeInvAtReturn(fr, b, st, reach, fv.pos(x.Pos()))
 			}
 			fr.rets = append(fr.rets, retInfo{reach, vals, st.Clone()})
 		case *ssa.Panic:
@@ -954,6 +963,12 @@ func (fv *FuncVC) execBlock(fr *Frame, b *ssa.BasicBlock, st *State, reach strin
 				}
 			}
 			fr.vals[x] = v
+			if len(fv.v.typeinvs) > 0 {
+				fv.assumeTypeInv(fr, x, v, st, reach)
+				if _, isCall := x.(*ssa.Call); isCall {
+					fv.reassumeTypeInvAfterCall(fr, b, st, reach)
+				}
+			}
 		default:
 			engineErr("%s: unsupported instruction %T", shortFuncName(fr.fn), in)
 		}
